@@ -5,7 +5,14 @@ From V Require Import Gen.Params Wire.Varint Wire.VarintProofs AdvEnf.Model AdvE
 Import ListNotations.
 Open Scope Z_scope.
 
-(** Core. For every advertised parameter list and every enforced side: no history in which
+(** Core. (Audit note: the "no error" direction is the invariant "the peer's credit never exceeds the
+    enforced window", which holds by construction of the game -- client and peer count the same [used];
+    the checkable content is [covers], i.e. for the spec-driven client the nine inequalities of
+    [spec_covers] between configCoveringSpec's result and the advertised values. Any difference between
+    the client's accounting and the peer's -- final sizes, which stream a frame lands on, reordered or
+    duplicate NEW_CONNECTION_ID, probing IDs -- is outside the theorems and rests on the correspondence
+    cases and on the units C03/C04/C15/C16.)
+    For every advertised parameter list and every enforced side: no history in which
     the peer stays within the ADVERTISED credit (and the client may grant more credit or
     retire connection IDs whenever it likes) ends in a locally generated FLOW_CONTROL_ERROR,
     STREAM_LIMIT_ERROR, CONNECTION_ID_LIMIT_ERROR, DATAGRAM error or early idle timeout
@@ -148,20 +155,36 @@ Theorem C12_tparams_roundtrip : forall ps, Forall wf_param ps -> parse (marshal 
 Proof. exact parse_marshal. Qed.
 Print Assumptions C12_tparams_roundtrip.
 
-(** The record: ClientOverride is taken from the extension's own cached encoding, the byte string
-    uTLS writes into the ClientHello. Equal byte for byte; a peer parsing it reads the recorded
-    and advertised limits of the list. *)
-Theorem C12_record_equals_wire : forall o ps, override_bytes o ps = wire_bytes o ps.
-Proof. exact record_equals_wire. Qed.
+(** The connection's own record of its parameters equals the bytes it sent, FIELD BY FIELD: what
+    wire.PopulateFromUQUIC stores ([record_of]: protocol defaults, then every integer-valued parameter of
+    the typed list read from its encoding, the disable_active_migration flag) is exactly what a peer
+    reads ([read_wire]: parse the bytes, RFC 9000 18.2 defaults) from the extension bytes -- for every
+    well-formed list and every GREASE draw of the marshaling. All thirteen fields: the ten limits,
+    ack_delay_exponent, max_ack_delay, disable_active_migration. *)
+Theorem C12_record_equals_wire : forall o ps,
+  (forall id b, vwf (zlen (o id b))) -> Forall wf_param ps ->
+  read_wire (wire_bytes o ps) = Some (record_of ps).
+Proof. exact record_equals_wire_fields. Qed.
 Print Assumptions C12_record_equals_wire.
 
-Theorem C12_record_equals_wire_limits : forall o ps,
-  (forall id b, vwf (zlen (o id b))) -> Forall wf_param ps ->
-  exists l,
-    parse (override_bytes o ps) = Some l /\ parse (wire_bytes o ps) = Some l /\
-    recorded (kv_of l) = recorded (kv_of ps) /\ advertised (kv_of l) = advertised (kv_of ps).
-Proof. exact record_equals_wire_limits. Qed.
-Print Assumptions C12_record_equals_wire_limits.
+(** Regression (the shape of PopulateFromUQUIC before the repair: no case for max_udp_payload_size and
+    ack_delay_exponent, zero instead of the protocol default for absent parameters): for the Chrome
+    parrot the record said max_udp_payload_size 0, active_connection_id_limit 0, ack_delay_exponent 0,
+    max_ack_delay 0 where the wire says 1472, 2, 3, 25. *)
+Example C12_old_shape_record_differs_from_wire_fields :
+  record_list (record_of_old (tparams_of advenf_spec_Chrome_146_IPv4)) =
+    [15728640; 6291456; 6291456; 6291456; 100; 103; 0; 65536; 30000; 0; 0; 0; 0] /\
+  record_list (read_list (tparams_of advenf_spec_Chrome_146_IPv4)) =
+    [15728640; 6291456; 6291456; 6291456; 100; 103; 2; 65536; 30000; 1472; 3; 25; 0].
+Proof. exact old_record_differs_from_wire. Qed.
+Print Assumptions C12_old_shape_record_differs_from_wire_fields.
+
+(** The byte strings: in the model ClientOverride IS the extension's cached encoding (that the code does
+    so is checked by the correspondence, observable o_override_ok, and the monitor
+    advenf/record-wire/override); this statement is definitional and named accordingly. *)
+Theorem C12_record_bytes_are_wire_bytes_by_construction : forall o ps, override_bytes o ps = wire_bytes o ps.
+Proof. exact record_bytes_are_wire_bytes_by_construction. Qed.
+Print Assumptions C12_record_bytes_are_wire_bytes_by_construction.
 
 (** Regression (old shape: the record was a second marshaling; utls re-draws the GREASE version
     of version_information at each): the byte strings could differ. *)
@@ -196,7 +219,13 @@ Example C12_cid_rotation_at_limit_ok :
 Proof. exact cid_rotation_fine. Qed.
 Print Assumptions C12_cid_rotation_at_limit_ok.
 
-(** Round 3. After any history of grants, what the client enforces is what it last advertised:
+(** Round 3. (Audit note: the next three statements follow from the definition of [EvGrant] -- both the
+    enforced window and the peer's credit become max(old, w) -- together with the hypothesis of [run_st]
+    that grants are increasing. Their link to the code is per step: the three composition theorems
+    below show that one GetWindowUpdate / one queued MAX_STREAMS of C04's / C15's models IS such an
+    increasing grant; there is no whole-run refinement between those models and this game: [used] vs
+    highestReceived and the error conditions are tied by the correspondence cases only.)
+    After any history of grants, what the client enforces is what it last advertised:
     for every counter of the game, in every history whose events are within the peer's credit
     and whose grants raise the enforced window ([run_st]), the enforced window and the peer's
     credit both equal the last granted value (or are what they were if no grant touched the
@@ -280,7 +309,11 @@ Theorem C12_limits_never_decrease : forall e h s s', inv s -> run_st e s h = Som
 Proof. exact limits_never_decrease. Qed.
 Print Assumptions C12_limits_never_decrease.
 
-(** Round 4. DATAGRAM frames (RFC 9221). Whatever the encoding -- with a length field (type 0x31)
+(** Round 4. (Audit note: the two statements on receiving unfold [client_step]'s DATAGRAM branch; what
+    ties them to handleDatagramFrame is the fixed table of both encodings at every boundary. The two on
+    sending concern the PEER's limit, which is not a clause of C12; they are here because the seeded
+    change C12-e broke a helper shared by both directions.)
+    DATAGRAM frames (RFC 9221). Whatever the encoding -- with a length field (type 0x31)
     or without (0x30, last frame of the packet) -- the client accepts a frame iff DATAGRAM support
     is on and the TOTAL frame size (type byte, length field if present, payload) is within the
     enforced limit; the error is FRAME_ENCODING_ERROR when support is off, PROTOCOL_VIOLATION
@@ -324,3 +357,19 @@ Example C12_simulated_histories_fine :
             Forall (fun h => play a (enforced_spec a default_config) h = Fine) (sim_shaped a)) advenf_all_specs.
 Proof. exact sim_shaped_fine. Qed.
 Print Assumptions C12_simulated_histories_fine.
+
+(** Round 5 (audit). A limit of the statements above, stated so that it cannot be overlooked: the
+    conformant peer of the game may send DATAGRAM frames only up to [dgram_cap] = min(advertised frame
+    size, min(advertised max_udp_payload_size, receive buffer 1452) - 18). For the Chrome parrots that
+    is 1434 although 65536 / 1472 are advertised: a larger frame needs a packet the client's receive
+    buffer truncates and drops (no error is raised -- the theorems are about errors --, but the
+    datagram is not delivered: "use to the full" does not hold for frames of 1435..1454 bytes; a peer
+    that validates its path MTU by probing never gets there, since probes above 1452 bytes are never
+    acknowledged). *)
+Example C12_dgram_cap_narrowing :
+  let a := advertised advenf_spec_Chrome_146_IPv4 in
+  (l_dgram a, l_udp a, dgram_cap a) = (65536, 1472, 1434) /\
+  play a (enforced_spec a default_config) [EvDgram 1434] = Fine /\
+  play a (enforced_spec a default_config) [EvDgram 1435] = NonConformant.
+Proof. exact dgram_cap_narrowing. Qed.
+Print Assumptions C12_dgram_cap_narrowing.
